@@ -788,3 +788,56 @@ Proof.
   specialize (H h2 ltac:(apply in_seq; pose proof (live_he_bound s h2 L2); lia)).
   rewrite L1, L2, F, T, !Nat.eqb_refl in H. simpl in H. apply Nat.eqb_eq. exact H.
 Qed.
+
+(* ================================================================== refutation witnesses *)
+
+(* completeness of the vertex forms on meshes WITH parallel edges: find_halfedge returns the FIRST live halfedge
+   v0->v1 of the vertex's outgoing list; a face built on another of the parallel edges is not found *)
+Definition parallel_witness : mesh :=
+  run [AddVertices 3; AddEdge 0 1 false; AddEdge 0 1 true; AddEdge 1 2 false; AddEdge 2 0 false; AddFace [2; 4; 6] true].
+
+Lemma find_halfface_complete_refuted :
+  exists s vs hf, vbu_exact s /\ ebu_exact s /\ wf_faces s /\ closed_face s hf /\ simple_face s hf /\
+    R_halfface_doc s 0 1 2 hf /\ R_halfface_ext s vs hf /\ vs = [0; 1; 2] /\
+    find_halfface_vs s vs = None /\ find_halfface_extensive s vs = None.
+Proof.
+  exists parallel_witness, [0; 1; 2], 0.
+  split; [apply vbu_check_sound; vm_compute; reflexivity|].
+  split; [apply ebu_check_sound; vm_compute; reflexivity|].
+  split; [apply wf_faces_check_sound; vm_compute; reflexivity|].
+  split; [apply loop_ok_spec; vm_compute; reflexivity|].
+  split; [vm_compute; repeat constructor; simpl; intuition discriminate|].
+  split; [exists 2, 4; vm_compute; intuition|].
+  split.
+  { split; [vm_compute; reflexivity|]. split; [vm_compute; reflexivity|]. exists 0. split; [simpl; lia|].
+    intros i Hi. simpl in Hi. destruct i as [|[|[|i]]]; try lia; vm_compute; reflexivity. }
+  split; [reflexivity|]. split; vm_compute; reflexivity.
+Qed.
+
+(* "the prefix relation coincides with the full relation on meshes without parallel edges and with simple faces":
+   false beyond triangles -- two quads sharing two consecutive edges *)
+Definition two_quads : mesh := run [AddVertices 5; AddFaceV [0; 1; 2; 3]; AddFaceV [0; 1; 2; 4]].
+
+Lemma prefix_relation_full_refuted :
+  exists s vs hf hf', vbu_exact s /\ ebu_exact s /\ wf_faces s /\ no_parallel_edges s /\
+    closed_face s hf /\ simple_face s hf /\ closed_face s hf' /\ simple_face s hf' /\
+    R_halfface_ext s vs hf' /\ find_halfface_vs s vs = Some hf /\ ~ R_halfface_ext s vs hf /\
+    find_halfface_extensive s vs = Some hf'.
+Proof.
+  exists two_quads, [0; 1; 2; 4], 0, 2.
+  split; [apply vbu_check_sound; vm_compute; reflexivity|].
+  split; [apply ebu_check_sound; vm_compute; reflexivity|].
+  split; [apply wf_faces_check_sound; vm_compute; reflexivity|].
+  split; [apply no_parallel_check_sound; vm_compute; reflexivity|].
+  split; [apply loop_ok_spec; vm_compute; reflexivity|].
+  split; [vm_compute; repeat constructor; simpl; intuition discriminate|].
+  split; [apply loop_ok_spec; vm_compute; reflexivity|].
+  split; [vm_compute; repeat constructor; simpl; intuition discriminate|].
+  split.
+  { split; [vm_compute; reflexivity|]. split; [vm_compute; reflexivity|]. exists 0. split; [simpl; lia|].
+    intros i Hi. simpl in Hi. destruct i as [|[|[|[|i]]]]; try lia; vm_compute; reflexivity. }
+  split; [vm_compute; reflexivity|]. split; [|vm_compute; reflexivity].
+  intros [_ [_ [k [Hk R]]]]. simpl in Hk.
+  pose proof (R 3 ltac:(simpl; lia)) as R3.
+  destruct k as [|[|[|[|k]]]]; try lia; vm_compute in R3; discriminate.
+Qed.
